@@ -427,5 +427,6 @@ func main() {
 		}
 	}
 	batch.Run(r, "cases", args, par, 15*time.Minute, func(inflight, head string) string { return "crash:" + head })
+	batch.ReportRaces(r, "/chord.", "/kv/")
 	r.Finish()
 }
